@@ -38,7 +38,8 @@ StepVerdicts(s, o) ==
     \cup (IF s.act = "marshal" /\ ~o.prefixIntact THEN {<<"C06", "prefix-modified">>, <<"C11", "buffer-below-length-modified">>} ELSE {})
     \cup (IF s.act \in {"marshal", "reuse"} /\ o.aliases THEN {<<"C11", "marshal-output-shares-memory-with-value">>} ELSE {})
     \cup (IF s.act = "unmarshal" /\ o.aliases THEN {<<"C11", "decoded-value-shares-memory-with-input">>} ELSE {})
-    \cup (IF s.act = "unmarshal" /\ o.err # "" THEN {<<"C10", "unmarshal-error">>} ELSE {})
+    \* an error is wrong when the specification can decode what the buffer holds (it may hold the encoding of another item's value)
+    \cup (IF s.act = "unmarshal" /\ o.err # "" /\ Decode(SysCfg(s.i), TypeOf(s.i), bufs[s.b], vars[s.i]).ok THEN {<<"C10", "unmarshal-error">>} ELSE {})
     \cup (IF s.act = "unmarshal" /\ o.err = "" /\ ~Decode(SysCfg(s.i), TypeOf(s.i), bufs[s.b], vars[s.i]).ok
           THEN {<<"C10", "accepted-bytes-the-model-cannot-decode">>}       \* the buffer does not hold what the specification says it holds
           ELSE IF s.act = "unmarshal" /\ o.err = "" /\ HasVar(post, s.i) /\ ~Same(s.i, LoggedVar(post, s.i), ev[s.i]) THEN {<<"C10", "decoded-value">>} ELSE {})
